@@ -151,7 +151,10 @@ def lattice(tier):
   # raises, C08-KF2); every alpha kind, use_01 both
   for u01, a in itertools.product([False, True], [None, 0.5, 2.0, [0.5, 2.0], "auto", "auto_po2"]):
     add(_cfg("binary", {"use_01": u01, "alpha": a, "use_stochastic_rounding": True},
-             phase=1, tf_seed=29), ("sr",) if isinstance(a, list) else ("sr", "r3"))
+             phase=1, tf_seed=29), ("sr", "srz", "srsub") if isinstance(a, list) else ("sr", "r3", "srz", "srsub"))
+    # inference phase: plain binary (x is not rescaled), any rank, zero channels allowed
+    add(_cfg("binary", {"use_01": u01, "alpha": a, "use_stochastic_rounding": True}, phase=0),
+        ("r2", "srz") if isinstance(a, list) else ("r2", "r1", "srz"))
   for a, real, ph in itertools.product([None, 0.5, 2.0, "auto", "auto_po2"], [True, False], [0, 1]):
     add(_cfg("stochastic_binary", {"alpha": a, "use_real_sigmoid": real}, phase=ph, tf_seed=17))
   for a, real in itertools.product([None, 0.5, "auto", "auto_po2"], [True, False]):
@@ -227,7 +230,18 @@ SR_SMALL = [0.04, -0.3, 0.6, -0.93, 0.5, 0.0, -0.11, 0.77, 0.25, -0.0, 1e-30, -0
 SR_LARGE = [1.1, -2.5, 6.0, -0.04, 0.3, 0.0, -1.0, 3.3, 0.93, -0.6, 1e30, -1e-30]
 
 
+SR_ZERO = [0.0, -0.0, 0.0, 0.0, -0.0, 0.0]
+SR_SUBNORMAL = [1e-45, -1e-45, 1e-40, 0.0, -3e-39, 1e-45]
+SR_OTHER = [0.3, -2.5, 0.6, -0.04, 1.1, 0.0]
+
+
 def probe(cfg, layout, channels=None):
+  if layout in ("srz", "srsub"):
+    # channel 0 all zero / all subnormal (flushed to zero by TF), channel 1 ordinary
+    col0 = SR_ZERO if layout == "srz" else SR_SUBNORMAL
+    xs = np.asarray([v for pair in zip(col0, SR_OTHER) for v in pair], dtype=F32)
+    rs = [R_CYCLE[(3 * j + j // 5) % len(R_CYCLE)] for j in range(len(xs))]
+    return {"cfg": cfg, "shape": [len(col0), 2], "xs": [float(v) for v in xs], "rs": rs}
   if layout == "sr":
     # two channels: one with max|x| <= 1 (the rounding scale f follows the
     # data), one with max|x| > 1 (f = 2); no all-zero channel
@@ -366,9 +380,11 @@ def case_strategy(tier):
     elif cls == "binary":
       kw["alpha"] = alpha(["none", "const", "list", "auto", "auto_po2"])
       kw["use_01"] = draw(st.booleans())
-      if rank >= 2 and draw(st.integers(0, 2)) == 0:
-        kw["use_stochastic_rounding"] = True       # training phase only (C08-KF2)
-        phase, seed = 1, draw(st.integers(0, 99))
+      if draw(st.integers(0, 2)) == 0:
+        kw["use_stochastic_rounding"] = True
+        # training phase needs rank >= 2 (per-channel rounding scale)
+        phase = draw(st.sampled_from([0, 1])) if rank >= 2 else 0
+        seed = draw(st.integers(0, 99))
       elif isinstance(kw["alpha"], str):
         scale_opts(True)
     elif cls == "ternary":
@@ -433,10 +449,11 @@ def case_strategy(tier):
                           st.booleans()).map(around)] * 2
     elem = st.one_of(parts + [st.sampled_from(EXTREMES)] if draw(st.integers(0, 3)) == 0 else parts)
     xs = [float(F32(v)) for v in draw(st.lists(elem, min_size=n, max_size=n))]
-    if kw.get("use_stochastic_rounding") and cls in ("binary", "ternary"):
-      # every channel (last axis) contains a non-zero element (C08-KF3: NaN otherwise)
+    if kw.get("use_stochastic_rounding") and cls in ("binary", "ternary") and phase == 1:
+      # every channel (last axis) contains a normal non-zero element; all-zero /
+      # all-subnormal channels (C06-KF3, C08-KF3: NaN) only come from the lattice
       for c in range(ch):
-        if not any(xs[j] != 0.0 for j in range(c, n, ch)):
+        if not any(abs(xs[j]) >= 1.1754944e-38 for j in range(c, n, ch)):
           xs[c] = 0.375
     rs = draw(st.lists(st.sampled_from([1.0, -1.0, 2.0, 0.5, -0.75, 3.0, 1.5, -0.25]),
                        min_size=n, max_size=n))
